@@ -319,7 +319,8 @@ func c17Digest(r *Report) {
 		}
 	}
 	o := r.ob("R17.4", "pss:options", nil, nil, "PSS hash is hashFunc(recv.alg) on both sides and the salt-length constants are equal")
-	okP := strings.Contains(signHash, "hashFunc>(*$0.alg)") && strings.Contains(verHash, "hashFunc>(*$0.alg)") && signSalt != "" && signSalt == verSalt
+	hfn := "call<" + shortFn(P.hashTableFunc()) + ">(*$0.alg)"
+	okP := strings.Contains(signHash, hfn) && strings.Contains(verHash, hfn) && signSalt != "" && signSalt == verSalt
 	o.check(okP, fmt.Sprintf("hash %s / %s, salt %s / %s", signHash, verHash, signSalt, verSalt), fmt.Sprintf("sign side hash %q salt %q; verify side hash %q salt %q", signHash, signSalt, verHash, verSalt))
 }
 
